@@ -50,6 +50,18 @@ ATOMS: List[Any] = [
     b"q8 ", b"a\nb", b"\n\n", b"\r\r", b"7\x07" b"8", b"\xff\x80", b"\\n", b"% >>",
     HexStr(b""), HexStr(b"A"), HexStr(b"\x90\x1f\xa0"), HexStr(b"\x00\x10"), HexStr(b"AB\xff"), HexStr(b"\x0a\xbc\xde\xf0"),
     HexStr(b"\x00"),
+    # extension: numbers of any size (exact read-back), short octal escapes at the end / before non-digits
+    12345678901234567890, Real(F(1, 10**20)), b"\x05", b"+x",
+]
+# thorough only
+ATOMS_THOROUGH: List[Any] = [
+    -98765432109876543210, Real(F(123456789012345678905, 10)), Real(F(-3, 10**20)), b"\x05x\x1f", b"\x00\x07\x3f", Ref(3, 5),
+]
+# read with a single deviation in both tiers (family 'tree'): a bare reference and references at depth 3
+EXTRA_TREES: List[Any] = [
+    Ref(1, 0), Ref(12, 7),
+    [[[Ref(1, 0)]]], {"K": {"L": {"M": Ref(12, 0)}}}, [{"K": [Ref(3, 5), Ref(1, 0)]}], {"K": [{"L": Ref(3, 5), "M": 7}, Ref(2, 0)]},
+    [[[Ref(1, 0), Ref(2, 0)], 5], Ref(65535, 65535)],
 ]
 # all 256 byte values spread over eight 32-byte literal strings (enumerated with a smaller deviation bound)
 LONG: List[Any] = [bytes(range(32 * k, 32 * k + 32)) for k in range(8)]
@@ -118,7 +130,7 @@ def tree_values(tier: str) -> List[Any]:
     b = BOUNDS[tier]
     key = (b["tree_nodes"], b["tree_rot"])
     if key not in _TREE_CACHE:
-        _TREE_CACHE[key] = _tree_values(*key)
+        _TREE_CACHE[key] = _tree_values(*key) + EXTRA_TREES
     return _TREE_CACHE[key]
 
 
@@ -158,7 +170,7 @@ def family(fam: str, tier: str) -> Tuple[List[Any], int]:
     if fam == "pair2":
         return pair2_values(), b["pair2_dev"]
     if fam == "atom":
-        return ATOMS, b["atom_dev"]
+        return ATOMS + (ATOMS_THOROUGH if tier == "thorough" else []), b["atom_dev"]
     if fam == "long":
         return LONG, b["long_dev"]
     if fam == "pair":
@@ -189,7 +201,7 @@ META = {
     "assumptions": [
         "values outside the pools (longer strings/names, deeper or wider composites than depth 3 / width 3, other numbers) are not explored",
         "spellings with more simultaneous deviations from the canonical form than the stated *_dev bound are not explored",
-        "references are generated only inside arrays/dictionaries (a bare 'n g R' is not an object of a content/object stream)",
+        "a bare 'n g R' (an object whose whole value is a reference) is read at top level of both seams; its reported position is not judged",
         "not generated: non-UTF-8 dictionary keys, exponent reals, NUL in names, comments inside strings, radix numbers",
         "short octal escapes are only written when the next string byte is not an ASCII digit (ISO 7.3.4.2 writer rule)",
         "a raw CR end-of-line directly followed by a raw LF is not generated (the pair is one end-of-line marker)",
@@ -234,7 +246,7 @@ def canon_obs(o: Any) -> Any:
     if type(o) is int:
         return ("int", o)
     if type(o) is float:
-        return ("real", repr(o))
+        return ("real", repr(o + 0.0))  # zero has no sign in PDF: -0.0 and 0.0 are the same value
     if isinstance(o, PSLiteral):
         return ("name", o.name)
     if isinstance(o, PSKeyword):
@@ -497,7 +509,10 @@ class Judge:
         base = self.base_stream if seam == "stream" else self.base_doc
         sigs = set()
         if base != want:
-            sigs.add("C01/canonical:" + diff_name(self.exp, base))
+            if isinstance(self.value, Ref) and base[0] == "ok" and base[1] == (("int", self.value.num), ("int", self.value.gen)):
+                sigs.add("C01/top-level-reference-split")  # operands flushed as two integers, R dropped
+            else:
+                sigs.add("C01/canonical:" + diff_name(self.exp, base))
             if obs == base:
                 return sorted(sigs)
         choices = list(s.x.choices)
@@ -557,7 +572,8 @@ def _judge_stream(st, J: Judge, s: Speller, ref, dep) -> None:
         for sig in J.misread_signatures(s, "stream", stream_value(ref)):
             st.violation(sig, {**base, "kind": "misread", "input": s.data, "bufsiz": 4096, "prefix_len": 0, "signature": sig},
                          want, stream_value(ref), f"{s.data!r} read back as {stream_value(ref)!r}, expected {exp!r}")
-    elif ref[2] != (s.body_start,):
+    elif not isinstance(J.value, Ref) and ref[2] != (s.body_start,):
+        # (a bare reference is reported at its R keyword, as inside arrays; the statement does not fix that position)
         sig = "C01/position:" + ("canonical" if not feats else "+".join(sorted({cause_name(f) for f in feats})))
         st.violation(sig, {**base, "kind": "position", "input": s.data, "bufsiz": 4096, "prefix_len": 0, "expected_pos": s.body_start,
                            "signature": sig}, s.body_start, ref[2], f"{s.data!r}: object reported at {ref[2]!r}, starts at {s.body_start}")
